@@ -186,6 +186,7 @@ PINNED = [
     ("annotation.rs", r"take_while\(\|c: char\| c\.is_ascii_alphanumeric\(\) \|\| c == '_' \|\| c == '\.'\)", 1),
     ("thrift.rs", r"satisfy\(\|c\| c\.is_ascii_alphabetic\(\)\)", 1),
     ("thrift.rs", r"take_while\(\|c: char\| c\.is_ascii_alphanumeric\(\) \|\| c == '_'\)", 1),
+    ("thrift.rs", r"let \(input, _\) = opt\(blank\)\(input\)\?;\s*let \(remain, items\) = many_till\(", 1),
     ("mod.rs", r"satisfy\(\|c: char\| c\.is_alphanumeric\(\) \|\| c == '_'\)", 1),
     ("field.rs", r"id\.parse::<i32>\(\)", 1),
     ("constant.rs", r"i64::from_str_radix\(d, 16\)", 1),
